@@ -110,8 +110,13 @@ void TimeoutMonitor<T>::onTimerTick()
 
     if (cb_) {
         ++cb_level_;
-        for (auto value : tobe_handle)
-            cb_(value);
+        //! run a copy: the callback may call cleanup(), which resets cb_
+        auto cb = cb_;
+        for (auto value : tobe_handle) {
+            cb(value);
+            if (curr_item_ == nullptr)  //! cleanup() was called in the callback, nothing more to report
+                break;
+        }
         --cb_level_;
     }
 }
